@@ -191,6 +191,50 @@ def grid_cases(quick: bool):
         yield pol({"between": ["2024-06-01T00:00:00Z", {"attr": "context.v"}]}), {**base, "ctx": ctx}, {"strict": False}
 
 
+def surrogate_probes(run: lib.Run) -> None:
+    """text a JSON parser produces but Lean's `String` cannot hold (lone surrogates, from "\\ud83d"): real engine only —
+    evaluation (with and without cache, lax and strict) must return a well-formed decision"""
+    from rbacx.core.cache import DefaultInMemoryCache
+    texts = [json.loads('"\\ud83d"'), json.loads('"a\\udc00b"'), json.loads('"\\ud800\\ud800"')]
+    pol = {"algorithm": "deny-overrides", "rules": [
+        {"id": "s", "effect": "permit", "actions": ["read"], "resource": {"type": "doc"},
+         "condition": {"or": [{"==": [{"attr": "context.s"}, "x"]}, {"startsWith": [{"attr": "context.s"}, "a"]},
+                              {"contains": [{"attr": "subject.roles"}, {"attr": "context.s"}]}, {"before": [{"attr": "context.s"}, "2024-01-01T00:00:00Z"]}]}}]}
+    for t in texts:
+        for slot in ("ctx", "sid", "rid", "role", "attr", "rtype", "action"):
+            req = {"sid": "u", "roles": ["a"], "sattrs": {}, "action": "read", "rtype": "doc", "rid": "1", "rattrs": {}, "ctx": {"s": "abc"}}
+            if slot == "ctx":
+                req["ctx"] = {"s": t, t: 1}
+            elif slot == "sid":
+                req["sid"] = t
+            elif slot == "rid":
+                req["rid"] = t
+            elif slot == "role":
+                req["roles"] = [t]
+            elif slot == "attr":
+                req["rattrs"] = {"k": t}
+                req["sattrs"] = {t: t}
+            elif slot == "rtype":
+                req["rtype"] = t
+            else:
+                req["action"] = t
+            for strict in (False, True):
+                for cached in (False, True):
+                    run.count("surrogate-probe")
+                    run.evaluations += 1
+                    try:
+                        ev: list = []
+                        g = real.make_guard(pol, {"strict": strict, "logger": True}, ev, cache=DefaultInMemoryCache(8) if cached else None)
+                        d = real.call_guard(g, req)
+                        d = real.call_guard(g, req)
+                        if not isinstance(d.allowed, bool) or d.effect not in ("permit", "deny") or d.reason not in DOCUMENTED:
+                            raise AssertionError("ill-formed decision")
+                    except Exception as e:  # noqa: BLE001
+                        run.spec_failures.append({"policy": pol, "request": {k: repr(v) for k, v in req.items()}, "cfg": {"strict": strict, "cache": cached},
+                                                  "impl": {"raised": type(e).__name__},
+                                                  "spec": f"evaluation raised {type(e).__name__} on a request holding a lone surrogate (valid JSON text)"})
+
+
 def domain_ok(req: dict) -> bool:
     """inside the statement: values encodable for the model (JSON values + datetimes); no NaN inside containers"""
     try:
@@ -249,6 +293,25 @@ def run_cases(run: lib.Run, audit: dict, scale: int = 1):
                 continue
             run.count("grid")
             cases.append((doc, req, cfg))
+    # the same totality with a decision cache in front (miss, then hit): every fifth case
+    from rbacx.core.cache import DefaultInMemoryCache
+    for k, (doc, req, cfg) in enumerate(cases):
+        if k % 5:
+            continue
+        try:
+            ev: list = []
+            g = real.make_guard(doc, cfg, ev, cache=DefaultInMemoryCache(8))
+            d1 = real.call_guard(g, req)
+            d2 = real.call_guard(g, req, "async")
+            run.count("cached-engine")
+            if (d1.allowed, d1.effect, d1.reason) != (d2.allowed, d2.effect, d2.reason):
+                run.spec_failures.append({"policy": doc, "request": req, "cfg": cfg, "impl": [str(d1), str(d2)],
+                                          "spec": "miss and hit of a cache-enabled engine differ"})
+        except Exception as e:  # noqa: BLE001
+            run.spec_failures.append({"policy": doc, "request": req, "cfg": cfg, "impl": {"raised": type(e).__name__},
+                                      "spec": f"a cache-enabled engine raised {type(e).__name__} on a schema-valid policy and a JSON-valued request"})
+    if scale == 1:
+        surrogate_probes(run)
     res = gc.run_batch(cases, consts, with_impl_spec=False)
     wf_cmds = [{"cmd": "wellformed", "policy": proto.enc(pol), "consts": {}, "oracle": {}} for pol, _, _ in cases]
     wf = proto.run_driver(wf_cmds)
@@ -280,7 +343,8 @@ def check(run: lib.Run, audit: dict) -> int:
                 "out-of-range epochs, malformed/edge ISO dates, empty/odd strings, nulls, wrong types, nested containers) in every slot, lax and "
                 "strict. non-trivial = the decision's reason is not no_match")
     run.assumptions = ["roles is a list or null; subject/resource attrs and context are objects or null; context._rebac an object (C06's quantifier)",
-                       "NaN does not occur inside containers (CPython identity shortcut)", "no lone surrogates in strings"]
+                       "NaN does not occur inside containers (CPython identity shortcut)",
+                       "strings with lone surrogates cannot be represented in the model (Lean String): they are evaluated on the real engine only (must not raise)"]
     if not audit["ok"]:
         raise lib.CheckError(f"Lean build/audit failed at {audit['stage']}: {audit.get('log') or audit.get('forbidden') or audit.get('bad_axioms')}")
     run_cases(run, audit)
